@@ -40,6 +40,7 @@ CONSTANTS FixUnpin,     \* FALSE = as coded
           MaxW,         \* state constraint on Len(wbuf) (concurrent mode)
           MaxVal,       \* values written by Put (model checking only)
           MaxPin,       \* bound of the pin count (model checking only)
+          TrackRounds,  \* count quiet maintenance rounds (BoundedAfterRounds)
           Confs         \* configurations chosen in Init
 
 VARIABLES conf, store, pins, wbuf, rbuf, pol, maint, force, failed, pinSnap,
@@ -160,8 +161,9 @@ ApplyAsk(a) ==
     THEN /\ store' = [store EXCEPT ![a] = 0]
          /\ pins' = [pins EXCEPT ![a] = 0]
          /\ gone' = [gone EXCEPT ![a] = TRUE]
+         /\ ref' = [ref EXCEPT ![a] = 0]
          /\ badEvict' = (badEvict \/ pins[a] > 0)
-    ELSE UNCHANGED <<store, pins, gone, badEvict>>
+    ELSE UNCHANGED <<store, pins, gone, ref, badEvict>>
 
 ---------------------------------------------------------------------------
 NeedMaint == force \/ Len(wbuf) > conf.batch \/ Len(rbuf) > conf.batch
@@ -189,6 +191,9 @@ InitFor(c) ==
     /\ quiet = 0
 
 Init == \E c \in Confs : InitFor(c)
+
+(* completed maintenance rounds since the last operation (saturating)      *)
+Round(q) == IF ~TrackRounds \/ q > conf.keys THEN q ELSE q + 1
 
 PushRead(k) == rbuf' = IF Len(rbuf) < conf.rcap THEN Append(rbuf, k) ELSE rbuf
 
@@ -220,9 +225,10 @@ Rem(k) ==
             /\ pins' = [pins EXCEPT ![k] = 0]
             /\ wbuf' = Append(wbuf, Msg("R", k))
             /\ gone' = [gone EXCEPT ![k] = TRUE]
-       ELSE UNCHANGED <<store, pins, wbuf, gone>>
+            /\ ref' = [ref EXCEPT ![k] = 0]
+       ELSE UNCHANGED <<store, pins, wbuf, gone, ref>>
     /\ quiet' = 0
-    /\ UNCHANGED <<conf, rbuf, pol, maint, force, failed, pinSnap, ref, badEvict, owed>>
+    /\ UNCHANGED <<conf, rbuf, pol, maint, force, failed, pinSnap, badEvict, owed>>
 
 (* owner pins a resident entry (entry API, under the entry lock)           *)
 Pin(k) ==
@@ -265,7 +271,7 @@ MaintStart ==
     /\ failed = "" /\ maint = "idle" /\ NeedMaint
     /\ maint' = "write"
     /\ force' = FALSE
-    /\ pinSnap' = PinnedNow
+    /\ pinSnap' = IF Recheck THEN {} ELSE PinnedNow
     /\ UNCHANGED <<conf, store, pins, wbuf, rbuf, pol, failed, hvars>>
 
 MaintWrite(cw) ==
@@ -275,43 +281,45 @@ MaintWrite(cw) ==
        /\ IF r.fail # ""
           THEN /\ failed' = r.fail
                /\ maint' = "idle"       \* the guard is released by unwinding
-               /\ UNCHANGED <<pol, store, pins, gone, badEvict>>
+               /\ UNCHANGED <<pol, store, pins, gone, ref, badEvict>>
           ELSE /\ pol' = r.p
                /\ ApplyAsk(r.ask)
                /\ UNCHANGED <<failed, maint>>
-    /\ UNCHANGED <<conf, rbuf, force, pinSnap, ref, owed, quiet>>
+    /\ UNCHANGED <<conf, rbuf, force, pinSnap, owed, quiet>>
 
 MaintRead ==
     /\ failed = "" /\ maint = "write" /\ wbuf = <<>>
     /\ pol' = HitAll(pol, rbuf)
     /\ rbuf' = <<>>
     /\ maint' = IF conf.strat = "Poll" THEN "trim" ELSE "idle"
-    /\ quiet' = IF conf.strat = "Poll" \/ quiet > conf.keys THEN quiet ELSE quiet + 1
+    /\ quiet' = IF conf.strat = "Poll" THEN quiet ELSE Round(quiet)
     /\ UNCHANGED <<conf, store, pins, wbuf, force, failed, pinSnap, ref, gone, badEvict, owed>>
 
 MaintTrim ==
     /\ failed = "" /\ maint = "trim"
     /\ IF pol.pn = <<>>
        THEN /\ maint' = "idle"
-            /\ quiet' = IF quiet > conf.keys THEN quiet ELSE quiet + 1
-            /\ UNCHANGED <<pol, store, pins, gone, badEvict>>
+            /\ quiet' = Round(quiet)
+            /\ UNCHANGED <<pol, store, pins, gone, ref, badEvict>>
        ELSE LET r == TrimStep IN
             /\ pol' = r.p
             /\ ApplyAsk(r.ask)
             /\ maint' = IF r.more THEN "trim" ELSE "idle"
-            /\ quiet' = IF r.more \/ quiet > conf.keys THEN quiet ELSE quiet + 1
-    /\ UNCHANGED <<conf, wbuf, rbuf, force, failed, pinSnap, ref, owed>>
+            /\ quiet' = IF r.more THEN quiet ELSE Round(quiet)
+    /\ UNCHANGED <<conf, wbuf, rbuf, force, failed, pinSnap, owed>>
+
+(* named disjuncts so that TLC's coverage reports every action            *)
+DoPut == \E k \in K, v \in 1..MaxVal, p \in 0..1 : Put(k, v, p)
+DoGet == \E k \in K : Get(k)
+DoRem == \E k \in K : Rem(k)
+DoNotify == \E k \in K : Notify(k)
+DoPin == \E k \in K : pins[k] < MaxPin /\ Pin(k)
+DoUnpinOwner == \E k \in K, g \in BOOLEAN : UnpinOwner(k, g)
+DoMaintWrite == \E cw \in DuelChoices : MaintWrite(cw)
 
 Next ==
-    \/ \E k \in K, v \in 1..MaxVal, p \in 0..1 : Put(k, v, p)
-    \/ \E k \in K : Get(k) \/ Rem(k) \/ Notify(k)
-    \/ \E k \in K : pins[k] < MaxPin /\ Pin(k)
-    \/ \E k \in K, g \in BOOLEAN : UnpinOwner(k, g)
-    \/ Flush
-    \/ MaintStart
-    \/ \E cw \in DuelChoices : MaintWrite(cw)
-    \/ MaintRead
-    \/ MaintTrim
+    \/ DoPut \/ DoGet \/ DoRem \/ DoNotify \/ DoPin \/ DoUnpinOwner \/ Flush
+    \/ MaintStart \/ DoMaintWrite \/ MaintRead \/ MaintTrim
 
 Spec == Init /\ [][Next]_vars
 
@@ -329,7 +337,7 @@ PinnedNeverEvicted == ~badEvict
 (* An entry stays readable with its latest value until evicted or removed. *)
 ReadableUntilGone ==
     \A k \in K : /\ gone[k] => store[k] = 0
-                 /\ ~gone[k] => store[k] = ref[k]
+                 /\ store[k] = ref[k]
 
 NumI == Cardinality({i \in 1..Len(wbuf) : wbuf[i].t = "I"})
 PendingU == {k \in K : \E i \in 1..Len(wbuf) : wbuf[i] = Msg("U", k)}
